@@ -1089,6 +1089,26 @@ def cases(tier, seed):
     for dialect in ("cff", "cff2s", "cff2v"):
         for part in range(16 if T else 4):
             add("gfont", dialect=dialect, part=part, n=40, pad=(1300 if part % 4 == 3 else 0))
+    # subroutine INDEX sizes at and around the bias boundaries (1240, 33900), and sizes that reach a
+    # boundary only after pruning unused subroutines
+    if T:
+        for sz in (1238, 1239, 1240, 1241, 1242, 33898, 33899, 33900, 33901, 33902):
+            big = {"timeout": 900} if sz > 30000 else {}
+            add("bias", dialect="cff", g=sz, l=5, gu=-1, lu=-1, **big)
+            add("bias", dialect="cff", g=7, l=sz, gu=-1, lu=-1, **big)
+            tot = 1300 if sz < 2000 else 34000
+            add("bias", dialect="cff", g=tot, l=9, gu=sz, lu=-1, **big)
+            add("bias", dialect="cff", g=9, l=tot, gu=-1, lu=sz, **big)
+        for sz in (1239, 1240, 33900):
+            big = {"timeout": 900} if sz > 30000 else {}
+            tot = 1300 if sz < 2000 else 34000
+            add("bias", dialect="cff2s", g=sz, l=sz + 1 if sz < 2000 else 6, gu=-1, lu=-1, **big)
+            add("bias", dialect="cff2s", g=tot, l=tot if sz < 2000 else 6, gu=sz, lu=sz - 1 if sz < 2000 else -1, **big)
+    else:
+        add("bias", dialect="cff", g=1240, l=1239, gu=-1, lu=-1)
+        add("bias", dialect="cff", g=1300, l=1300, gu=1240, lu=1239)
+        add("bias", dialect="cff2s", g=1241, l=1240, gu=-1, lu=-1)
+        add("bias", dialect="cff2s", g=1300, l=1245, gu=1240, lu=1240)
     for part in range(8 if T else 2):
         add("widths", part=part, n=300 if T else 150)
     recs = corpus.fonts(pred=CFF_PRED)
@@ -1645,6 +1665,76 @@ class _Diag:
         return out
 
 
+def _cff_table(data):
+    raw = t2ref.sfnt_table(data, b"CFF ")
+    if raw is None:
+        raw = t2ref.sfnt_table(data, b"CFF2")
+    if raw is None:
+        raise t2ref.T2Error("no CFF/CFF2 table")
+    return t2ref.parse_cff(raw)
+
+
+def _compare_bytes(ctx, op, data0, data1, mode, gids, diag):
+    """Oracle layer on the compiled bytes: the reference machine with its own table reader (own INDEX
+    counts, hence own subroutine biases) executes every glyph of the font before and after."""
+    try:
+        t0 = _cff_table(data0)
+    except t2ref.T2Error as e:
+        ctx.note("t2ref-bytes.input-not-readable")
+        return
+    try:
+        t1 = _cff_table(data1)
+    except t2ref.T2Error as e:
+        ctx.judged()
+        ctx.violation({"kind": "render", "op": op, "oracle": "t2ref-bytes", "field": "unreadable"},
+                      "%s: the rewritten CFF table cannot be read: %s" % (op, e), {})
+        return
+    if len(t1.glyphs) != len(t0.glyphs):
+        ctx.judged()
+        ctx.violation({"kind": "render", "op": op, "oracle": "t2ref-bytes", "field": "glyph-count"},
+                      "%s: %d charstrings before, %d after" % (op, len(t0.glyphs), len(t1.glyphs)), {})
+        return
+    naxes = len(t0.regions[0][0]) if (t0.regions and t0.regions[0]) else 0
+    locs = [None] + ([[0.5] * naxes] if naxes and t1.regions else [])
+    lim1 = 513 if t1.cff2 else 48
+    lim0 = 513 if t0.cff2 else 48
+    for loc in locs:
+        for g in gids:
+            if g >= len(t0.glyphs):
+                continue
+            try:
+                b = t0.run(g, loc)
+            except t2ref.T2Error:
+                ctx.note("t2ref-bytes.before-not-executable")
+                continue
+            if {_errclass(e) for e in b.errors} - BENIGN:
+                ctx.note("t2ref-bytes.before-malformed")
+                continue
+            ctx.judged()
+            w = {"gid": g, "normalised_location": loc}
+            try:
+                a = t1.run(g, loc)
+            except t2ref.T2Error as e:
+                ctx.violation(dict({"kind": "render", "op": op, "oracle": "t2ref-bytes", "field": "unexecutable"}, **diag(g, g)),
+                              "%s: glyph %d of the rewritten table cannot be executed: %s" % (op, g, e), w)
+                continue
+            ok, why = (same_topology(b.path, a.path) if mode == "topology" else same_fill(b.path, a.path, 1e-6))
+            if not ok:
+                ctx.violation(dict({"kind": "render", "op": op, "oracle": "t2ref-bytes", "field": "topology" if mode == "topology" else "path"}, **diag(g, g)),
+                              "%s: glyph %d draws differently per the reference machine on the bytes (%s)" % (op, g, why),
+                              dict(w, before=b.path[:30], after=a.path[:30]))
+            if b.width is not None and a.width is not None and not op.endswith((":convert", ":roundtrip")) and abs(b.width - a.width) > 1e-6:
+                ctx.violation(dict({"kind": "render", "op": op, "oracle": "t2ref-bytes", "field": "width"}, **diag(g, g)),
+                              "%s: glyph %d width %r -> %r" % (op, g, b.width, a.width), w)
+            new = sorted({_errclass(e) for e in a.errors} - {_errclass(e) for e in b.errors} - {"stack-overflow"})
+            for e in new:
+                ctx.violation(dict({"kind": "render", "op": op, "oracle": "t2ref-bytes", "field": "arity" if e.startswith("arity") else "format", "error": e}, **diag(g, g)),
+                              "%s: glyph %d of the rewritten table violates the format: %s" % (op, g, [x for x in a.errors if _errclass(x) == e][:3]), w)
+            if a.max_stack > lim1 and b.max_stack <= lim0:
+                ctx.violation(dict({"kind": "render", "op": op, "oracle": "t2ref-bytes", "field": "stack"}, **diag(g, g)),
+                              "%s: glyph %d operand stack depth %d exceeds %d" % (op, g, a.max_stack, lim1), w)
+
+
 def _compare_fonts(ctx, op, data0, data1, mode, rnd, gids=None):
     locs, axes, n = _font_locs(data0, rnd)
     gids = list(range(n)) if gids is None else gids
@@ -1659,6 +1749,7 @@ def _compare_fonts(ctx, op, data0, data1, mode, rnd, gids=None):
             return
         render_compare(ctx, op, r0, r1, [(g, g, "gid%d" % g) for g in gids], mode=mode, variable=loc is not None,
                        witness=lambda label, loc=loc: {"location": loc}, diag=diag)
+    _compare_bytes(ctx, op, data0, data1, mode, gids, diag)
     # charstring widths through FreeType on the bare CFF table
     b0, b1 = bare_widths(data0), bare_widths(data1)
     h0 = Renderer(data0).hb
@@ -1809,6 +1900,60 @@ def _gfont_build(case, rnd, ctx):
             ctx.inconclusive("oracle disagreement t2ref/HarfBuzz on generated font glyph %d" % (i + 1))
             return None
     return data0, sp, local, glob, shared, cff2, dialect
+
+
+def drv_bias(case, rnd, ctx):
+    """Fonts whose subroutine INDEX sizes sit at / around the bias boundaries, before or after pruning."""
+    from vmon.gen import c12_prog as GP, c12_font as GF
+    cff2 = case["dialect"] != "cff"
+    gu = None if case["gu"] < 0 else case["gu"]
+    lu = None if case["lu"] < 0 else case["lu"]
+    progs, local, glob = GP.gen_bias_font(rnd, cff2, case["g"], case["l"], gu, lu)
+    refs = []
+    for p in progs:
+        r = _ref(p, cff2, False, lsubrs=local, gsubrs=glob)
+        if isinstance(r, str) or r.errors:
+            ctx.inconclusive("generator produced a malformed boundary font: %s" % (r if isinstance(r, str) else r.errors[:3]))
+            return
+        refs.append(r)
+    names = GF.glyph_names(len(progs))
+    adv = {n: (600 if cff2 else max(0, int(r.width))) for n, r in zip(names[1:], refs)}
+    try:
+        with ctx.lib("build-font"):
+            if cff2:
+                data0, names = GF.build_cff2(progs, local, glob, advances=adv)
+            else:
+                data0, names = GF.build_cff(progs, local, glob, private={"nominalWidthX": 500, "defaultWidthX": 333}, advances=adv)
+    except LibRaised:
+        return
+    # the input itself, read from the bytes by the reference machine and by HarfBuzz, must be the font
+    # that was generated (neither goes through fontTools' bias)
+    tab = _cff_table(data0)
+    if len(tab.gsubrs) != case["g"] or len(tab.privs[0]["lsubrs"]) != case["l"]:
+        ctx.inconclusive("compiled INDEX sizes %d/%d differ from the requested %d/%d" % (
+            len(tab.gsubrs), len(tab.privs[0]["lsubrs"]), case["g"], case["l"]))
+        return
+    h = Renderer(data0)
+    for i, r in enumerate(refs):
+        rb = tab.run(i + 1)
+        if rb.path != r.path or not same_fill(r.path, h.hb_outline(i + 1), 1e-6)[0]:
+            ctx.inconclusive("oracle disagreement on the generated boundary font, glyph %d" % (i + 1))
+            return
+    big = max(case["g"], case["l"]) > 30000
+    ops = ["desubroutinize", "remove_unused_subroutines", "remove_hints", "convert"] + ([] if big else ["roundtrip"] + ([] if cff2 else ["subset"]))
+    for op in ops:
+        res = _apply(ctx, data0, op)
+        if res is None:
+            continue
+        data1, mode = res
+        _compare_fonts(ctx, "bias:" + op, data0, data1, mode, rnd)
+        try:
+            t1 = _cff_table(data1)
+            ctx.note("bias.sizes-after:%s:g%d/l%d" % (op, len(t1.gsubrs), len(t1.privs[0]["lsubrs"])))
+        except Exception:
+            pass
+        _cur["keys"].add("bias|%s|g%d/l%d|%s" % (case["dialect"], case["g"], case["l"], op))
+    ctx.sample = {"case": case["id"], "global_subrs": case["g"], "local_subrs": case["l"], "used": [gu, lu], "ops": ops}
 
 
 def _plain_sfnt(rel):
